@@ -1,6 +1,9 @@
 //! C17: bookmarks -> outline -> table of contents.
 //! Case: (case <doc> (ops (add (t cp...) fmt (c xR xG xB) (pid pgen) parent|none)...) (flags adjust reload) <expect>)
 //!   expect = (wf (row level (t cp...) page)...)   the generator's own preorder of the forest it linearised
+//!          | (ndbad (row level (t cp...) page)...) as wf, but the catalog has a name tree that get_named_destinations refuses
+//!                                                 (cyclic, ill-typed, too deep): get_toc must answer Err -- the right rows are
+//!                                                 accepted too, anything else (other rows, a panic) is a failure
 //!          | (mal)                                hypotheses of the read-back clause not met: only ids/links are judged
 //! Everything goes through the public API: Document::add_bookmark, adjust_zero_pages,
 //! build_outline, get_object_mut + Dictionary::set (README merge example), get_toc, save_to, load_mem.
@@ -52,10 +55,11 @@ fn op_of_sx(x: &Sx) -> Option<Op> {
     })
 }
 
-fn toc_sx(doc: &Document) -> (Sx, Option<Vec<(usize, String, usize)>>) {
+/// result sx, the rows when get_toc returned Ok, whether it panicked
+fn toc_sx(doc: &Document) -> (Sx, Option<Vec<(usize, String, usize)>>, bool) {
     match catch_unwind(AssertUnwindSafe(|| doc.get_toc())) {
-        Err(_) => (Sx::tagged("toc", vec![Sx::id("panic")]), None),
-        Ok(Err(_)) => (Sx::tagged("toc", vec![Sx::id("err")]), None),
+        Err(_) => (Sx::tagged("toc", vec![Sx::id("panic")]), None, true),
+        Ok(Err(_)) => (Sx::tagged("toc", vec![Sx::id("err")]), None, false),
         Ok(Ok(t)) => {
             let rows: Vec<(usize, String, usize)> = t.toc.iter().map(|r| (r.level, r.title.clone(), r.page)).collect();
             (
@@ -70,6 +74,7 @@ fn toc_sx(doc: &Document) -> (Sx, Option<Vec<(usize, String, usize)>>) {
                     ],
                 ),
                 Some(rows),
+                false,
             )
         }
     }
@@ -261,7 +266,8 @@ fn main() {
             (Some(x), Some(y)) => (x, y),
             _ => return (Sx::id("badcase"), "skip".into()),
         };
-        let wf = a[3].tag() == Some("wf");
+        let ndbad = a[3].tag() == Some("ndbad");
+        let wf = a[3].tag() == Some("wf") || ndbad;
         let old_max = doc.max_id;
         let old_keys: BTreeSet<ObjectId> = doc.objects.keys().cloned().collect();
         let old_objects = doc.objects.clone();
@@ -305,7 +311,7 @@ fn main() {
                 ),
             ],
         );
-        let (toc1, rows1) = toc_sx(&doc);
+        let (toc1, rows1, panicked1) = toc_sx(&doc);
 
         // ---- direct evaluation of the property ----
         let mut verdict = "ok".to_string();
@@ -410,6 +416,8 @@ fn main() {
             if !f.roots.is_empty() {
                 match &rows1 {
                     Some(r) if *r == want => {}
+                    None if ndbad && !panicked1 => {} // Err: the name tree is refused
+                    None if panicked1 => fail("get_toc panicked".into()),
                     r => fail(format!("get_toc {:?} differs from the forest preorder {:?}", r, want)),
                 }
             }
@@ -424,7 +432,10 @@ fn main() {
                     Sx::tagged("reload", vec![Sx::id("failed")])
                 }
                 Some(re) => {
-                    let (toc2, rows2) = toc_sx(&re);
+                    let (toc2, rows2, panicked2) = toc_sx(&re);
+                    if panicked2 {
+                        fail("get_toc panicked after save_to + load_mem".into());
+                    }
                     let same = doc.objects.iter().filter(|(id, _)| id.0 > old_max).all(|(id, o)| re.objects.get(id).map(norm) == Some(norm(o)));
                     if !same {
                         fail("a created object differs after save_to + load_mem".into());
